@@ -10,6 +10,7 @@ R13.2 every generated way of running the parser (one per action kind) hands the 
       RTParserBuilder::recoverer.
 R13.3 the generated reader selects, per SerialisationFormat variant, the integer encoding the builder wrote that variant with.
 R13.4 every generated `AStackType::Lexeme(v) =>` arm hands v to the action as Err when v.faulty() and as Ok otherwise.
+R13.5 an enum value written into generated code as a path names its own variant.
 The behavioural equivalence itself (same lexemes, trees, errors and repairs for every input) is NOT decided.
 """
 import re
@@ -335,8 +336,58 @@ def r134(facts, res):
     res.floor(R, 'generated Lexeme arms', n, 1)
 
 
+def r135(facts, res):
+    """A value of a workspace enum that is written into generated code as a path `..::Enum::Variant` names its OWN variant: in
+    every quoting function of an enum (ToTokens::to_tokens, to_variant_tokens) each arm that emits the enum's name emits, right
+    after it, the name of the variant that arm matched.  `ReplaceStack => quote!(::lrlex::StartStateOperation::Push)` compiles,
+    and only lexers with that operation behave differently once generated."""
+    R = 'R13.5'
+    n = 0
+    for b in sorted(facts.lib_bodies(['cfgrammar', 'lrtable', 'lrpar', 'lrlex']), key=lambda x: x.path):
+        if b.name not in ('to_tokens', 'to_variant_tokens') or b.kind == 'closure':
+            continue
+        ename = (b.impl_of or '').split('<')[0]
+        ad = facts.adt(ename)
+        if ad is None or ad['kind'] != 'enum':
+            continue
+        short = ename.rsplit('::', 1)[-1]
+        vn = {v['discr']: v['name'] for v in ad['variants']}
+        w = Walker(b, facts, max_paths=256)
+        ps = [p for p in w.run() if p.end[0] == 'return']
+        if w.overflow:
+            continue
+        seen = {}
+        for p in ps:
+            d = None
+            for c, v in p.conds:
+                if c[0] == 'discr' and isinstance(v, int) and term_has(c[1], lambda x: x == ('param', 1)) and not term_has(c[1], lambda x: isinstance(x, tuple) and x and x[0] == 'downcast'):
+                    d = v
+            if d is None or d not in vn:
+                continue
+            idents = []
+            for e in p.calls(name='push_ident'):
+                a = strip_ref(e[3][1]) if len(e[3]) > 1 else None
+                if a is not None and is_const(a) and isinstance(a[1], str):
+                    idents.append(a[1])
+            if short not in idents:
+                continue        # this arm does not write a path to the enum (e.g. Visibility -> `pub`)
+            i = idents.index(short)
+            emitted = idents[i + 1] if i + 1 < len(idents) else None
+            seen.setdefault(vn[d], set()).add(emitted)
+        for vname, ems in sorted(seen.items()):
+            n += 1
+            key = 'variant-path:%s::%s' % (short, vname)
+            if ems == {vname}:
+                res.ok(R, key, loc_of(b), 'generated as `%s::%s`' % (short, vname))
+            else:
+                res.bad(R, key, loc_of(b), 'the arm for `%s::%s` writes `%s::%s` into the generated code: the generated module is built with another value than the builder had'
+                        % (short, vname, short, '/'.join(sorted(str(x) for x in ems))))
+    res.floor(R, 'enum variants written as paths into generated code', n, 16)
+
+
 def run(facts, res):
     r131(facts, res)
     r132(facts, res)
     r133(facts, res)
     r134(facts, res)
+    r135(facts, res)
